@@ -971,7 +971,7 @@ func startLocsAreClockwise(startLocs []Location) bool {
 
 func getPathRectClipLine(op *OutPt2) Path64 {
 	var result Path64
-	if op == nil || op.prev == op.next {
+	if op == nil || op == op.next {
 		return result
 	}
 	op = op.next
